@@ -656,10 +656,10 @@ def run(chk):
                     'checked numerically on every generated instance, not proved about scipy',
                     'own re-computations used by the oracle: Poisson pmf via exp/lgamma, normal loss functions via math.erfc, closed-form integral '
                     'of the normal newsvendor cost (cross-checked against scipy quad of the own integrand)']
-    chk.assume += ['floating-point rounding is not modelled: theorems are over exact rationals; comparisons use relative tolerance 1e-9 '
+    chk.assume += ['floating-point rounding is not modelled: theorems are over exact rationals (hand-written model) and over the reals (source-generated terms); comparisons use relative tolerance 1e-9 '
                    '(1e-7 for r_q_cost, whose quad call has default tolerance 1.49e-8) and a 1e-7 margin rule for (r,Q) decisions',
                    'library functions (poisson pmf/cdf, norm ppf/cdf/pdf, sqrt, fsolve, quad) are inputs/Section variables of the model with the '
-                   'stated hypotheses (sqrt x * sqrt x = x, residual bound of the root finder, mean-value bounds of the integral)']
+                   'stated hypotheses (squaring error of sqrt at the one argument passed, residual bound of the root finder at the call that produced r, mean-value bounds of the integral)']
     # the closed-form / bisection part of rq.py (and ss.s_s_power_approximation) is REGENERATED from the source before the proofs are checked
     # (gen/Gen_rq.v, gen/Gen_ss.v; theorems C14_gen_* / C13_gen_power_* of Props/C14.v are about these terms): fail-closed
     from props import c14_gen
